@@ -14,7 +14,7 @@ theorem goodMk_LSf (v : Nat) (p : Pat) (it : Expr) (b : List Stmt)
     (hcb : findFor Code.fn_ShmReader__snapshot_stmts = some (p, it, b)) : GoodMk (LSf v) := by
   first
   | (exfalso; simp [findFor] at hcb; done)
-  | (intro k g1 cg cache lg pos; simp [LSf, LSg, probeEnv, probeSt, loopPrefix, probeInp, relabel, rs_eval, rs_code, rawInp, readerValue, wordsValue, envGet])
+  | (intro k g1 cg cache lg pos; simp [LSf, LSg, probeEnv, probeSt, loopPrefix, probeInp, relabel, sfr, rs_eval, rs_code, rawInp, readerValue, wordsValue, envGet])
 
 set_option maxRecDepth 8000 in
 set_option maxHeartbeats 2000000 in
